@@ -57,8 +57,11 @@ def single_match(ex, pat: bytes, data: VBytes, st, kind, pos=None):
     ms, me = it.attrs["MS"][zero], it.attrs["ME"][zero]
     n = z3.Length(data.z)
     if kind == "match":
-        p = zero if pos is None else pos
-        st.fact(z3.Implies(truthy, ms == p))
+        if pat is not None and R2.parse(pat).reverse:
+            st.fact(z3.Implies(truthy, me == n))  # `regex` (?r): the search runs backwards, match() is anchored at the END
+        else:
+            p = zero if pos is None else pos
+            st.fact(z3.Implies(truthy, ms == p))
     if kind == "fullmatch":
         st.fact(z3.Implies(truthy, z3.And(ms == 0, me == n)))
         if pat is not None and not R2.has_erased(pat):
@@ -217,6 +220,16 @@ def strip_model(ex, recv, args, st):
     return type(recv)(r)
 
 
+def _split_positions(s, a0, sep, a1):
+    L = z3.Length
+    return [L(s) == L(a0) + L(sep) + L(a1), z3.SubString(s, 0, L(a0)) == a0, z3.SubString(s, L(a0), L(sep)) == sep, z3.SubString(s, L(a0) + L(sep), L(a1)) == a1]
+
+
+def _split_positions_lemma():
+    s, a0, sep, a1 = z3.Consts("s a0 sep a1", S)
+    return [(str(k), [s == z3.Concat(a0, sep, a1)], g) for k, g in enumerate(_split_positions(s, a0, sep, a1))]
+
+
 def split_model(ex, recv, name, args, kwargs, st):
     """sep.split / rsplit -> list[bytes] (symbolic): joined by the separator it gives the receiver back; no piece
     contains the separator when there is no maxsplit; with maxsplit=k at most k+1 pieces."""
@@ -251,10 +264,13 @@ def split_model(ex, recv, name, args, kwargs, st):
         if is_int_const(maxsplit.z) and int_const(maxsplit.z) == 1:
             st.fact(z3.Implies(n == 2, s == z3.Concat(arr[0], sz, arr[1])))
             st.fact((n == 2) == z3.Contains(s, sz))
+            # the same in position form (consequences of the concatenation: model lemma `split-positions`)
+            ex.used_lemmas = getattr(ex, "used_lemmas", set()) | {"split-positions"}
+            st.fact(z3.Implies(n == 2, z3.And(*_split_positions(s, arr[0], sz, arr[1]))))
             if name == "rsplit":
                 st.fact(z3.Implies(n == 2, z3.Not(z3.Contains(arr[1], sz))))
                 li = z3.LastIndexOf(s, sz)
-                st.fact(z3.Implies(n == 2, z3.And(li >= 0, arr[0] == z3.SubString(s, 0, li), arr[1] == z3.SubString(s, li + z3.Length(sz), z3.Length(s) - li - z3.Length(sz)))))
+                st.fact(z3.Implies(n == 2, z3.And(li >= 0, li == z3.Length(arr[0]))))  # links rsplit with bytes.rfind
             else:
                 st.fact(z3.Implies(n == 2, z3.Not(z3.Contains(arr[0], sz))))
     else:
@@ -502,15 +518,107 @@ def call_py(ex, obj, name, node, st):
         r = f(a.z)
         st.fact(z3.Implies(ok, z3.Length(r) * 2 == z3.Length(a.z)))
         return VBytes(r)
+    if obj is urllib.parse.urlsplit:
+        (a,), _ = ex.eval_args(node, st)
+        return urlsplit_model(ex, a, st)
     if obj is urllib.parse.unquote_to_bytes:
         (a,), _ = ex.eval_args(node, st)
         ex.assumed.add("urllib.parse.unquote_to_bytes: total on bytes; result no longer than the argument (uninterpreted UNQUOTE)")
         f = uf(ex, "UNQUOTE", S, S)
         r = f(a.z)
         st.fact(z3.And(z3.Length(r) <= z3.Length(a.z), z3.Length(r) * 3 >= z3.Length(a.z)))
-        st.fact(z3.Implies(z3.Not(z3.Contains(a.z, z3.StringVal("%"))), r == a.z))
         return VBytes(r)
     raise Unsupported(f"call of {name}")
+
+
+URLSPLIT_CONTRACT = (
+    "urllib.parse.urlsplit on bytes without whitespace / control bytes: raises only ValueError; otherwise text == [schemetext ':'] ['//' netloc] path ['?' query] ['#' fragment], "
+    "scheme == lower(schemetext), netloc has no / ? #, path has no ? #, query has no #, a component that is absent is empty (a '?' or '#' may be present with an EMPTY query / fragment)"
+)
+
+
+def url_parts(ex, tz):
+    f = lambda nm, srt: uf(ex, nm, S, srt)(tz)  # noqa: E731
+    return {"scheme": f("URLSCHEME", S), "schemetext": f("URLSCHEMETEXT", S), "netloc": f("URLNETLOC", S), "path": f("URLPATH", S), "query": f("URLQUERY", S),
+            "fragment": f("URLFRAGMENT", S), "hasnl": f("URLHASNETLOC", B), "hasq": f("URLHASQUERY", B), "hasf": f("URLHASFRAGMENT", B),
+            "ps": f("URLPART_S", S), "pn": f("URLPART_N", S), "pq": f("URLPART_Q", S), "pf": f("URLPART_F", S)}
+
+
+def urlsplit_facts(t, p, lo):
+    """-> (definition, interface).  `definition` is the stated contract of urlsplit (URLSPLIT_CONTRACT): the text is the concatenation of the optional pieces.
+    `interface` is what function proofs are given: lengths plus the position of every component inside the text.  interface follows from definition
+    (model lemma `urlsplit-positions`, discharged every run); z3's sequence solver does not terminate on the definition itself, cvc5 decides it at once."""
+    e = z3.StringVal("")
+    L, C, sv = z3.Length, z3.Contains, z3.StringVal
+    ps, pn, pq, pf = p["ps"], p["pn"], p["pq"], p["pf"]
+    concat = [t == z3.Concat(ps, pn, p["path"], pq, pf), L(t) == L(ps) + L(pn) + L(p["path"]) + L(pq) + L(pf)]
+    pieces = [ps == z3.If(L(p["scheme"]) > 0, z3.Concat(p["schemetext"], sv(":")), e), pn == z3.If(p["hasnl"], z3.Concat(sv("//"), p["netloc"]), e),
+              pq == z3.If(p["hasq"], z3.Concat(sv("?"), p["query"]), e), pf == z3.If(p["hasf"], z3.Concat(sv("#"), p["fragment"]), e)]
+    lens = [L(ps) == z3.If(L(p["scheme"]) > 0, L(p["scheme"]) + 1, 0), L(pn) == z3.If(p["hasnl"], L(p["netloc"]) + 2, 0),
+            L(pq) == z3.If(p["hasq"], L(p["query"]) + 1, 0), L(pf) == z3.If(p["hasf"], L(p["fragment"]) + 1, 0)]
+    misc = [L(p["schemetext"]) == L(p["scheme"]), p["scheme"] == lo(p["schemetext"]), L(lo(p["schemetext"])) == L(p["schemetext"]),
+            z3.Implies(z3.Not(p["hasnl"]), p["netloc"] == e), z3.Implies(z3.Not(p["hasq"]), p["query"] == e), z3.Implies(z3.Not(p["hasf"]), p["fragment"] == e),
+            z3.Not(C(p["netloc"], sv("/"))), z3.Not(C(p["netloc"], sv("?"))), z3.Not(C(p["netloc"], sv("#"))),
+            z3.Not(C(p["path"], sv("?"))), z3.Not(C(p["path"], sv("#"))), z3.Not(C(p["query"], sv("#"))),
+            z3.InRe(p["schemetext"], z3.Star(z3.Union(z3.Range("a", "z"), z3.Range("A", "Z"), z3.Range("0", "9"), z3.Re("+"), z3.Re("-"), z3.Re("."))))]
+    o1 = L(ps)
+    o2 = o1 + L(pn)
+    o3 = o2 + L(p["path"])
+    o4 = o3 + L(pq)
+    positions = {
+        "scheme": z3.Implies(L(p["scheme"]) > 0, z3.And(z3.SubString(t, 0, L(p["scheme"])) == p["schemetext"], z3.SubString(t, L(p["scheme"]), 1) == sv(":"))),
+        "netloc": z3.Implies(p["hasnl"], z3.SubString(t, o1 + 2, L(p["netloc"])) == p["netloc"]),
+        "path": z3.SubString(t, o2, L(p["path"])) == p["path"],
+        "after-path": z3.SubString(t, o3, 1) == z3.If(p["hasq"], sv("?"), z3.If(p["hasf"], sv("#"), e)),
+        "query": z3.Implies(p["hasq"], z3.SubString(t, o3 + 1, L(p["query"])) == p["query"]),
+        "hash": z3.Implies(p["hasf"], z3.SubString(t, o4, 1) == sv("#")),
+        "fragment": z3.Implies(p["hasf"], z3.SubString(t, o4 + 1, L(p["fragment"])) == p["fragment"]),
+    }
+    return concat + pieces + lens + misc, concat + lens + misc + list(positions.values()), positions
+
+
+def _urlsplit_positions_lemma():
+    t = z3.Const("url", S)
+    lo = z3.Function("LOWER", S, S)
+    p = {k: z3.Const("url_" + k, B if k.startswith("has") else S) for k in ("scheme", "schemetext", "netloc", "path", "query", "fragment", "hasnl", "hasq", "hasf", "ps", "pn", "pq", "pf")}
+    definition, _, positions = urlsplit_facts(t, p, lo)
+    return [(k, definition, g) for k, g in positions.items()]
+
+
+from .contract import MODEL_LEMMAS  # noqa: E402
+
+MODEL_LEMMAS["urlsplit-positions"] = _urlsplit_positions_lemma
+MODEL_LEMMAS["split-positions"] = _split_positions_lemma
+
+
+def urlsplit_model(ex, a, st):
+    ex.assumed.add(URLSPLIT_CONTRACT)
+    ex.used_lemmas = getattr(ex, "used_lemmas", set()) | {"urlsplit-positions"}
+    t = a.z
+    p = url_parts(ex, t)
+    ex.raise_if(st, uf(ex, "URLSPLIT_RAISES", S, B)(t), "ValueError", "urlsplit")  # whether urlsplit rejects a text is a function of the text
+    _, interface, _ = urlsplit_facts(t, p, uf(ex, "LOWER", S, S))
+    st.fact(z3.And(*interface))
+    o = VObj("urlsplit", {k: VBytes(p[k]) for k in ("scheme", "netloc", "path", "query", "fragment")})
+    o.text = t
+    return o
+
+
+def urlsplit_attr(ex, obj, attr, st):
+    """SplitResult.port / .hostname: properties computed from the netloc (port validates and may raise ValueError)."""
+    t = obj.text
+    if attr == "port":
+        ex.raise_if(st, fresh("port_raises", B), "ValueError", "SplitResult.port")
+        n = fresh("port", I)
+        st.fact(z3.And(0 <= n, n <= 65535))
+        return VOpt(fresh("port_is_none", B), VInt(n))
+    if attr == "hostname":
+        ex.assumed.add("SplitResult.hostname is None or a part of the netloc (a non-empty hostname means a non-empty netloc)")
+        hn = uf(ex, "URLHOSTNAME", S, S)(t)
+        none = uf(ex, "URLHOSTNAME_NONE", S, B)(t)
+        st.fact(z3.Implies(z3.And(z3.Not(none), z3.Length(hn) > 0), z3.And(uf(ex, "URLHASNETLOC", S, B)(t), z3.Length(uf(ex, "URLNETLOC", S, S)(t)) > 0)))
+        return VOpt(none, VBytes(hn))
+    raise Unsupported(f"SplitResult.{attr}")
 
 
 def re_sub(ex, args, kw, st):
@@ -591,13 +699,13 @@ def comprehension(ex, node, st, kind):
     line = getattr(ex, "cur_line", 0)
     from . import builtins_tbl as BT
 
-    for cond, exc, desc, ln in sc.pending:
+    for cond, exc, desc, ln, _snap in sc.pending:
         allowed = any(cls in ex.c.raises or cls in ex.c.raises_iff for cls in BT.exc_supers(exc))
         handler = getattr(ex, "comp_handlers", [])
         caught = any(h in BT.exc_supers(exc) for h in handler)
         if caught:
             # inside try/except: the whole comprehension may raise; the condition is existential over i
-            st.pending.append((z3.Exists([i], z3.And(0 <= i, i < n, z3.And(*sc.path[len(st.path):]), cond)) if False else fresh("comp_raises", B), exc, desc, ln))
+            ex.raise_if(st, fresh("comp_raises", B), exc, desc)
             continue
         if not allowed:
             s2 = sc.clone()
